@@ -560,6 +560,25 @@ def run(c):
             swnotes[w['name']] = 'neither variant matches'
             vec[w['switch']] = '1'
     vec = ''.join(vec)
+    # second pass: a witness can need other switches at their detected value to distinguish its own
+    # (the completion guard only exists in a template whose deep-completion test is repaired)
+    lines = []
+    for (w, t) in wit:
+        k = w['switch'] if w['switch'] is not None else 0
+        lines.append(mline(vec[:k] + '1' + vec[k + 1:], t, caps))
+        lines.append(mline(vec[:k] + '0' + vec[k + 1:], t, caps))
+    rc, mo, _ = run_lines(vm, lines)
+    v2 = list(vec)
+    for i, ((w, t), r) in enumerate(zip(wit, wres)):
+        if r['status'] != 'ok' or w['switch'] is None or w['switch'] == 6:
+            continue
+        ir = norm_impl_raw(r)
+        on = raw_equal(ir, split_model(mo[2 * i])[0])[0]
+        off = raw_equal(ir, split_model(mo[2 * i + 1])[0])[0]
+        if on != off:
+            v2[w['switch']] = '1' if on else '0'
+            swnotes[w['name']] = 'present' if on else 'absent'
+    vec = ''.join(v2)
     c.notes['defect_switches'] = dict(zip(SWITCHES, vec))
     c.notes['witnesses'] = swnotes
     c.notes['ltl_needs_state_named_pass'] = needs_pass
